@@ -404,10 +404,10 @@ func isUint32Slice(t types.Type) bool {
 // proverFor finds the prover method taking *param.
 func proverFor(p *core.Program, ps, param *types.Named) *ssa.Function {
 	for _, fn := range p.RepoFuncs() {
-		if fn.Signature.Recv() == nil || namedOf(fn.Signature.Recv().Type()) != ps || fn.Signature.Params().Len() != 1 {
+		if fn.Signature.Recv() == nil || namedOf(fn.Signature.Recv().Type()) != ps || delegateTarget(fn) != nil {
 			continue
 		}
-		if namedOf(fn.Signature.Params().At(0).Type()) == param && witnessCircuitType(fn) != nil {
+		if pix := requestParamIndex(fn); pix >= 0 && namedOf(fn.Signature.Params().At(pix).Type()) == param && witnessCircuitType(fn) != nil {
 			return fn
 		}
 	}
@@ -422,7 +422,7 @@ func witnessFieldSources(eng *tf.Engine, fn *ssa.Function) map[string]string {
 		if callNameHasSuffix(e.Term, "gnark/frontend.NewWitness") && len(e.Term.Args) >= 1 {
 			rec := ev.Deref(e.Term.Args[0])
 			for i, n := range rec.Names {
-				if src, ok := copyOf(rec.Args[i], ev.Params[1]); ok {
+				if src, ok := copyOf(rec.Args[i], ev.Params[1+requestParamIndex(fn)]); ok {
 					out[n] = src.Field
 				}
 			}
